@@ -205,7 +205,7 @@ Definition l_wfree (x : ctx) : option ctx :=
 (* ------------------------------------------------------------------ *)
 (* 2. the system                                                       *)
 
-Inductive cont := KIdle | KClear | KExit.   (* who called release_ctx *)
+Inductive cont := KIdle | KClear | KExit | KWake.   (* who called release_ctx *)
 
 (* program counter of the loop thread *)
 Inductive spc :=
@@ -216,7 +216,9 @@ Inductive spc :=
   | PAccFree (c : nat)             (*   add_ctx failed, cb_free due *)
   | PAccClose (c : nat)            (*   freed, close(fd) due *)
   | PAccNoAlloc                    (*   cb_alloc returned NULL, close(fd) due *)
+  | PWake                          (* on_wake: handle->mtx held, at the head of the while loop over ctx_queue *)
   | PWakeReg (c : nat)             (* on_wake: add_ctx ok, cb_add_ctx due *)
+  | PWakeCb                        (* on_wake: queue drained, mutex released, cb_wake due *)
   | PRel (c : nat) (k : cont)      (* release_ctx(c): counter release due *)
   | PRelClose (c : nat) (k : cont) (*   cb_release done, close due *)
   | PRelFree (c : nat) (k : cont)  (*   closed, cb_free due *)
@@ -259,7 +261,8 @@ Fixpoint remove_nat (c : nat) (l : list nat) : list nat :=
 
 Definition spc_eqb (a b : spc) : bool :=
   match a, b with
-  | PIdle, PIdle | PAccFd, PAccFd | PAccNoAlloc, PAccNoAlloc | PFin, PFin | PDone, PDone => true
+  | PIdle, PIdle | PAccFd, PAccFd | PAccNoAlloc, PAccNoAlloc | PFin, PFin | PDone, PDone
+  | PWake, PWake | PWakeCb, PWakeCb => true
   | PAccAlloc c, PAccAlloc d | PAccReg c, PAccReg d | PAccFree c, PAccFree d | PAccClose c, PAccClose d
   | PWakeReg c, PWakeReg d => Nat.eqb c d
   | _, _ => false
@@ -303,6 +306,7 @@ Definition after_rel (s : sys) (k : cont) : option sys :=
   | KIdle => Some (with_pc s PIdle)
   | KClear => enter_clear s
   | KExit => enter_exit s
+  | KWake => Some (with_pc s PWake)
   end.
 
 Inductive ev :=
@@ -321,8 +325,11 @@ Inductive ev :=
   | EShut (c : nat) | ERetain (c : nat) | EClose (c : nat) | ERelease (c : nat)
   | EExitreq                            (* muggle_evloop_exit by any thread: no effect on contexts *)
   | EReturned
+  | EWake                               (* cb_wake: on_wake is over *)
   (* silent *)
-  | ETauRel | ETauBreak.
+  | ETauRel | ETauBreak
+  | ETauWakeBegin                       (* the wake-up signal is dispatched: on_wake locks handle->mtx *)
+  | ETauWakeUnlock.                     (* while (queue size > 0) ends: the mutex is released *)
 
 Fixpoint prefix_eqb (a b : list Z) : bool :=     (* a is a prefix of b *)
   match a, b with
@@ -336,13 +343,22 @@ Definition ret0 (o : option sys) : option (sys * Z) :=
 
 Definition not_finished (p : spc) : bool :=
   match p with PFin | PDone => false | _ => true end.
+(* on_wake holds handle->mtx: muggle_socket_evloop_add_ctx of any other thread blocks *)
+Definition wake_locked (p : spc) : bool :=
+  match p with
+  | PWake | PWakeReg _ | PRel _ KWake | PRelClose _ KWake | PRelFree _ KWake => true
+  | _ => false
+  end.
+
+(* user callbacks run from the dispatch loop or, for cb_add_ctx, from inside on_wake *)
+Definition in_callback (p : spc) : bool := match p with PIdle | PWake => true | _ => false end.
 
 Definition step (s : sys) (e : ev) : option (sys * Z) :=
   match e with
   | EHalloc kd n => Some (add_ctx s (new_ctx kd n LUser true), 0)
   | EHand c =>
     (* outside the property once on_exit has drained the queue *)
-    if not_finished (pc s) then
+    if (not_finished (pc s) && negb (wake_locked (pc s)))%bool then
       ret0 (match on_ctx s c l_hand with
             | Some s1 => Some (with_lists s1 (queue s1 ++ [c]) (reg s1) (clr s1))
             | None => None end)
@@ -358,14 +374,14 @@ Definition step (s : sys) (e : ev) : option (sys * Z) :=
   | EWfree c => ret0 (on_ctx s c l_wfree)
   | EReg c ok =>
     match pc s with
-    | PIdle =>            (* on_wake: front of the queue *)
+    | PWake =>            (* on_wake: front of the queue *)
       match queue s with
       | c' :: q =>
         if Nat.eqb c c' then
           ret0 (match on_ctx s c (fun x => l_reg_wake x ok) with
                 | Some s1 =>
                   if ok then Some (with_pc (with_lists s1 q (reg s1 ++ [c]) (clr s1)) (PWakeReg c))
-                  else Some (with_pc (with_lists s1 q (reg s1) (clr s1)) (PRel c KIdle))
+                  else Some (with_pc (with_lists s1 q (reg s1) (clr s1)) (PRel c KWake))
                 | None => None end)
         else None
       | [] => None
@@ -384,7 +400,7 @@ Definition step (s : sys) (e : ev) : option (sys * Z) :=
     if spc_eqb (pc s) (PWakeReg c) then
       ret0 (match nth_error (ctxs s) c with
             | Some x => match on_ctx s c (fun x => l_announce x (k_conn x)) with
-                        | Some s1 => Some (with_pc s1 PIdle) | None => None end
+                        | Some s1 => Some (with_pc s1 PWake) | None => None end
             | None => None end)
     else None
   | EAccepted => if spc_eqb (pc s) PIdle then Some (with_pc s PAccFd, 0) else None
@@ -443,8 +459,8 @@ Definition step (s : sys) (e : ev) : option (sys * Z) :=
       end
     else None
   | ERdErr c => if spc_eqb (pc s) PIdle then ret0 (on_ctx s c (fun x => l_eof x false)) else None
-  | EShut c => if spc_eqb (pc s) PIdle then ret0 (on_ctx s c l_shut) else None
-  | ERetain c => if spc_eqb (pc s) PIdle then on_ctx_r s c l_retain else None
+  | EShut c => if in_callback (pc s) then ret0 (on_ctx s c l_shut) else None
+  | ERetain c => if in_callback (pc s) then on_ctx_r s c l_retain else None
   | EClose c =>
     if spc_eqb (pc s) PIdle then
       match nth_error (ctxs s) c with
@@ -479,6 +495,12 @@ Definition step (s : sys) (e : ev) : option (sys * Z) :=
     if spc_eqb (pc s) PIdle then ret0 (enter_clear (with_lists s (queue s) [] (reg s))) else None
   | EExitreq => Some (s, 0)
   | EReturned => if spc_eqb (pc s) PFin then Some (with_pc s PDone, 0) else None
+  | ETauWakeBegin => if spc_eqb (pc s) PIdle then Some (with_pc s PWake, 0) else None
+  | ETauWakeUnlock =>
+    if spc_eqb (pc s) PWake then
+      match queue s with [] => Some (with_pc s PWakeCb, 0) | _ :: _ => None end
+    else None
+  | EWake => if spc_eqb (pc s) PWakeCb then Some (with_pc s PIdle, 0) else None
   end.
 
 (* a history: events that are not enabled are skipped, so every list is a history *)
